@@ -643,4 +643,48 @@ pub(crate) mod verif_c14 {
     d_flat_variant!(d_flat_tuple, DFlat::Tup(kani::any(), kani::any()));
     d_flat_variant!(d_flat_struct1, DFlat::One { a: kani::any() });
     d_flat_variant!(d_flat_struct2, DFlat::Two { x: kani::any(), yy: kani::any() });
+
+    // identifier handling: field / variant names of every spelling class serde treats specially or not at all -
+    // leading letters incl. `r`, leading underscore, digits, upper case, raw identifiers (serde strips the `r#`).
+    #[derive(serde::Serialize, crate::Schema)]
+    #[postcard(crate = crate)]
+    #[allow(non_snake_case)]
+    struct DNames {
+        r: u8,
+        rr: u8,
+        radius: u8,
+        _under: u8,
+        x1: u8,
+        Camel: u8,
+        r#type: u8,
+    }
+    #[derive(serde::Serialize, crate::Schema)]
+    #[postcard(crate = crate)]
+    #[allow(non_camel_case_types)]
+    enum DVarNames {
+        R,
+        Rr,
+        right,
+        _U,
+        r#match,
+    }
+    #[kani::proof]
+    #[kani::unwind(9)]
+    fn d_names_struct() {
+        check(&DNames { r: 1, rr: 2, radius: 3, _under: 4, x1: 5, Camel: 6, r#type: 7 });
+    }
+    macro_rules! d_names_variant {
+        ($name:ident, $v:expr) => {
+            #[kani::proof]
+            #[kani::unwind(9)]
+            fn $name() {
+                check(&$v);
+            }
+        };
+    }
+    d_names_variant!(d_names_v0, DVarNames::R);
+    d_names_variant!(d_names_v1, DVarNames::Rr);
+    d_names_variant!(d_names_v2, DVarNames::right);
+    d_names_variant!(d_names_v3, DVarNames::_U);
+    d_names_variant!(d_names_v4, DVarNames::r#match);
 }
